@@ -247,7 +247,7 @@ func runC01(c *eng.Ctx) {
 		}
 		c.R.End(idx, eng.Hash(kind, r.Spec.Canon(), len(r.Ops)), nt && r.Built)
 	}
-	for wi, s := range append(c01Witnesses(), shrunkGroupSpecs(godi.Singleton)...) {
+	for wi, s := range append(append(c01Witnesses(), shrunkGroupSpecs(godi.Singleton)...), SwapSpecs(false)...) {
 		if m := NewModel(s); m.Class != ClsOK {
 			panic(fmt.Sprintf("harness fixture %d of C01 (witnesses) is not buildable: %s", wi, m.Class))
 		}
@@ -313,7 +313,7 @@ func runC01(c *eng.Ctx) {
 		}
 		rng := cr.rng(idx)
 		full := k%5 == 4 // every fifth spec uses the full profile (features behind open findings)
-		s, m := GenSpec(rng, GenOpts{Want: ClsOK, Specials: true, Values: true, MultiAlias: full || k%3 == 1, OutGroup: full, MultiOpt: full, Removes: k%3 == 1})
+		s, m := GenSpec(rng, GenOpts{Want: ClsOK, Specials: true, Values: true, MultiAlias: full || k%3 == 1, OutGroup: full, MultiOpt: full, Removes: k%3 == 1, Rebuild: k%4 == 1, Sibling: true})
 		if s == nil {
 			continue
 		}
@@ -460,6 +460,7 @@ func runC03(c *eng.Ctx) {
 		{Regs: []Reg{mkReg("Leaf_S0_a", godi.Transient), mkReg("Leaf_S5_a", godi.Transient), mkReg("Twice_S4", godi.Singleton)}},
 		{Regs: []Reg{mkReg("Leaf_K0_a", godi.Transient, withAs("IK0")), mkReg("InU_1_1_Iface", godi.Transient), mkReg("InU_2_2_Plain", godi.Scoped)}},
 	}
+	directed = append(directed, SwapSpecs(false)...)
 	for di, s := range directed {
 		if m := NewModel(s); m.Class != ClsOK {
 			panic(fmt.Sprintf("harness fixture %d of C03 (directed) is not buildable: %s", di, m.Class))
@@ -496,7 +497,7 @@ func runC03(c *eng.Ctx) {
 		}
 		rng := cr.rng(idx)
 		lifes := []godi.Lifetime{godi.Transient, godi.Transient, godi.Transient, godi.Singleton, godi.Scoped}
-		s, m := GenSpec(rng, GenOpts{Want: ClsOK, Specials: k%3 == 0 || k%4 == 1, Lifetimes: lifes, Removes: k%4 == 1, MultiAlias: k%4 == 1})
+		s, m := GenSpec(rng, GenOpts{Want: ClsOK, Specials: k%3 == 0 || k%4 == 1, Lifetimes: lifes, Removes: k%4 == 1, MultiAlias: k%4 == 1, Rebuild: k%4 == 1 || k%8 == 2, Sibling: true})
 		if s == nil {
 			continue
 		}
